@@ -78,6 +78,7 @@ type Exec struct {
 	Decisions   map[string]int
 	NMustRefuse int
 	LenientRef  int
+	AfterTrigger func() // called once right after the next End has triggered its endings
 	NoAdmissionVerdicts bool // set by properties other than C01: do not judge must-refuse
 	ProbesLive  int
 	ProbesIdle  int
@@ -395,6 +396,10 @@ func (x *Exec) End(s *Stream, how string, alsoPeer string, peerFirst bool) {
 		x.trigger(peer, alsoPeer)
 	} else {
 		alsoPeer = ""
+	}
+	if f := x.AfterTrigger; f != nil {
+		x.AfterTrigger = nil
+		f()
 	}
 	if !x.waitParkedRelease(s, from) {
 		x.Viol("stream-does-not-end", fmt.Sprintf("%s did not end after %s", s, how))
